@@ -353,6 +353,10 @@ func (r *Run) Finish(cov map[string]any) {
 		// run against a scratch copy (mutant testing): never overwrite the real evidence
 		evdir = os.Getenv("VERIF_SCRATCH")
 	}
+	if os.Getenv("VERIF_ONLY") != "" && os.Getenv("VERIF_SCRATCH") != "" {
+		// partial run (development aid): the evidence of a partial run never replaces the real one
+		evdir = os.Getenv("VERIF_SCRATCH")
+	}
 	os.MkdirAll(evdir, 0o755)
 	if err := os.WriteFile(filepath.Join(evdir, r.ID+".json"), b, 0o644); err != nil {
 		Fatalf("evidence: %v", err)
